@@ -84,6 +84,22 @@ fn make_validation_table(long_string_refs: bool) -> Rc<Table> {
     )
 }
 
+/// Returns the string in a cell of a catalog table that cannot be null.
+fn str_cell<'a>(value: &'a Value, table_name: &str) -> io::Result<&'a str> {
+    match value.as_str() {
+        Some(string) => Ok(string),
+        None => invalid_data!("Malformed {:?} table: null string", table_name),
+    }
+}
+
+/// Returns the number in a cell of a catalog table that cannot be null.
+fn int_cell(value: &Value, table_name: &str) -> io::Result<i32> {
+    match value.as_int() {
+        Some(number) => Ok(number),
+        None => invalid_data!("Malformed {:?} table: null number", table_name),
+    }
+}
+
 fn is_reserved_table_name(table_name: &str) -> bool {
     table_name == COLUMNS_TABLE_NAME
         || table_name == TABLES_TABLE_NAME
@@ -308,7 +324,8 @@ impl<F: Read + Seek> Package<F> {
                     table.read_rows(stream)?,
                 );
                 for row in rows {
-                    let table_name = row[0].as_str().unwrap().to_string();
+                    let table_name =
+                        str_cell(&row[0], TABLES_TABLE_NAME)?.to_string();
                     if names.contains(&table_name) {
                         invalid_data!(
                             "Repeated key in {:?} table: {:?}",
@@ -339,9 +356,9 @@ impl<F: Read + Seek> Package<F> {
                     table.read_rows(stream)?,
                 );
                 for row in rows {
-                    let table_name = row[0].as_str().unwrap();
+                    let table_name = str_cell(&row[0], COLUMNS_TABLE_NAME)?;
                     if let Some(cols) = columns_map.get_mut(table_name) {
-                        let col_index = row[1].as_int().unwrap();
+                        let col_index = int_cell(&row[1], COLUMNS_TABLE_NAME)?;
                         if cols.contains_key(&col_index) {
                             invalid_data!(
                                 "Repeated key in {:?} table: {:?}",
@@ -349,8 +366,9 @@ impl<F: Read + Seek> Package<F> {
                                 (table_name, col_index)
                             );
                         }
-                        let col_name = row[2].as_str().unwrap().to_string();
-                        let type_bits = row[3].as_int().unwrap();
+                        let col_name =
+                            str_cell(&row[2], COLUMNS_TABLE_NAME)?.to_string();
+                        let type_bits = int_cell(&row[3], COLUMNS_TABLE_NAME)?;
                         cols.insert(col_index, (col_name, type_bits));
                     } else {
                         invalid_data!(
@@ -374,16 +392,16 @@ impl<F: Read + Seek> Package<F> {
             if comp.exists(&stream_name) {
                 let stream = comp.open_stream(&stream_name)?;
                 for value_refs in table.read_rows(stream)?.into_iter() {
-                    let table_name = value_refs[0]
-                        .to_value(&string_pool)
-                        .as_str()
-                        .unwrap()
-                        .to_string();
-                    let column_name = value_refs[1]
-                        .to_value(&string_pool)
-                        .as_str()
-                        .unwrap()
-                        .to_string();
+                    let table_name = str_cell(
+                        &value_refs[0].to_value(&string_pool),
+                        VALIDATION_TABLE_NAME,
+                    )?
+                    .to_string();
+                    let column_name = str_cell(
+                        &value_refs[1].to_value(&string_pool),
+                        VALIDATION_TABLE_NAME,
+                    )?
+                    .to_string();
                     let key = (table_name, column_name);
                     if validation_map.contains_key(&key) {
                         invalid_data!(
@@ -416,7 +434,7 @@ impl<F: Read + Seek> Package<F> {
                 let key = (table_name.clone(), column_name);
                 if let Some(value_refs) = validation_map.get(&key) {
                     let is_nullable = value_refs[2].to_value(&string_pool);
-                    if is_nullable.as_str().unwrap() == "Y" {
+                    if is_nullable.as_str() == Some("Y") {
                         builder = builder.nullable();
                     }
                     let min_value = value_refs[3].to_value(&string_pool);
